@@ -253,6 +253,22 @@ fn check(c: &LCase) -> Outcome {
                 _ => {}
             }
         }
+        // dials made with DialOpts::override_role(): still outgoing connections, counted against the outgoing limits
+        let lim = ext.limits[i];
+        for (id, info) in &r.models[i].ids {
+            if !info.role_override || !info.outbound || ext.ignored[i].contains(id) {
+                continue;
+            }
+            if info.established && (lim[3].is_some() || lim[4].is_some() || lim[5].is_some()) {
+                labels.push("role_override_established_under_limits");
+                if lim[3].map(|l| l > 0).unwrap_or(false) {
+                    labels.push("role_override_established_under_outgoing_limit");
+                }
+            }
+            if info.terminal.first().map(|t| t.contains("Denied")).unwrap_or(false) && !probe_denied.contains(id) {
+                labels.push("role_override_denied_by_limits");
+            }
+        }
         for (id, info) in &r.models[i].ids {
             if info.sync_err == Some(ErrKind::Denied) && !probe_denied.contains(id) {
                 limit_denials += 1;
@@ -323,7 +339,7 @@ pub fn run(ctx: &mut Ctx) {
     let max_ops = ctx.tier.sel(50, 70);
     ctx.check::<LCase>(
         "world",
-        "programs of 4..50 world ops (dials with/without peer id, swarm-to-swarm connects, phantom inbound connections, transport outcomes ok/err/wrong peer, closes, disconnects, remote close, muxer fault, bypass_peer_id/remove_peer_id, generated schedules) over 1..3 swarms whose behaviour is #[derive(NetworkBehaviour)] {connection_limits, probe} in both field orders; per node six limits each None or 0..3 and an initial bypass set; after every poll return / API call the six counts (event-history fold and network_info, bypassed connections ignored) are <= the limits; non-trivial = at least one connection was denied by the limits behaviour; distinct by case hash",
+        "programs of 4..50 world ops (dials with/without peer id, 20 % of them with DialOpts::override_role() - still outgoing connections -, swarm-to-swarm connects, phantom inbound connections, transport outcomes ok/err/wrong peer, closes, disconnects, remote close, muxer fault, bypass_peer_id/remove_peer_id, generated schedules) over 1..3 swarms whose behaviour is #[derive(NetworkBehaviour)] {connection_limits, probe} in both field orders; per node six limits each None or 0..3 and an initial bypass set; after every poll return / API call the six counts (event-history fold and network_info, bypassed connections ignored) are <= the limits; non-trivial = at least one connection was denied by the limits behaviour; distinct by case hash",
         ctx.n(60_000, 2_000_000),
         &move || strategy(max_ops),
         &check,
